@@ -328,6 +328,111 @@ fn step(s: &mut S, t: &mut Toks) -> R<String> {
                 _ => Err(BadOp),
             }
         }
+        // ---------------------------------------------------------------- coverage extension (Model/ShapeExtra.lean)
+        "sort_data" => {
+            t.end()?;
+            // in-place sort of the live object; Rust leaves the slice in an unspecified order when the
+            // comparator panics, so the harness puts the old data back before re-raising
+            let backup = s.m.data.clone();
+            let r = std::panic::catch_unwind(std::panic::AssertUnwindSafe(|| s.m.data_mut().sort()));
+            if let Err(e) = r {
+                s.m.data = backup;
+                std::panic::resume_unwind(e);
+            }
+            Ok(show_mat(&s.m))
+        }
+        "dmset" => {
+            let (k, v) = (t.usize()?, t.f64()?);
+            t.end()?;
+            s.m.data_mut()[k] = v;
+            Ok(show_mat(&s.m))
+        }
+        "with_shape_fill" => {
+            let (r, c, v) = (t.usize()?, t.usize()?, t.f64()?);
+            t.end()?;
+            let mut m = Matrix::with_shape(r, c);
+            for x in m.data_mut().iter_mut() {
+                *x = v;
+            }
+            s.m = m;
+            Ok(show_mat(&s.m))
+        }
+        "with_capacity" => {
+            let (r, c) = (t.usize()?, t.usize()?);
+            t.end()?;
+            s.m = Matrix::with_capacity(r, c);
+            Ok(show_mat(&s.m))
+        }
+        "sumrows_mat" => {
+            t.end()?;
+            s.m = s.m.sum_rows().to_matrix();
+            Ok(show_mat(&s.m))
+        }
+        "sumcols_mat" => {
+            t.end()?;
+            s.m = s.m.sum_cols().to_matrix();
+            Ok(show_mat(&s.m))
+        }
+        "shape" => {
+            t.end()?;
+            let sh = s.m.shape();
+            Ok(ok(format!("{} {}", sh[0], sh[1])))
+        }
+        "size" => {
+            t.end()?;
+            Ok(ok(format!("{}", s.m.size())))
+        }
+        "sum_rows" => {
+            t.end()?;
+            Ok(ok(show_vec(&s.m.sum_rows())))
+        }
+        "sum_cols" => {
+            t.end()?;
+            Ok(ok(show_vec(&s.m.sum_cols())))
+        }
+        "vnew" => {
+            let d = t.vec()?;
+            t.end()?;
+            Ok(ok(show_vec(&Vector::new(d))))
+        }
+        "vempty" => {
+            t.end()?;
+            Ok(ok(show_vec(&Vector::empty())))
+        }
+        "vzeros" => {
+            let n = t.usize()?;
+            t.end()?;
+            Ok(ok(show_vec(&Vector::zeros(n))))
+        }
+        "vones" => {
+            let n = t.usize()?;
+            t.end()?;
+            Ok(ok(show_vec(&Vector::ones(n))))
+        }
+        "vwith_capacity" => {
+            let n = t.usize()?;
+            t.end()?;
+            Ok(ok(format!("{}", Vector::with_capacity(n).len())))
+        }
+        "vempty_n" => {
+            let n = t.usize()?;
+            t.end()?;
+            // contents are uninitialised: only the length is observed
+            Ok(ok(format!("{}", Vector::empty_n(n).len())))
+        }
+        "vsort" => {
+            let d = t.vec()?;
+            t.end()?;
+            let mut v = Vector::new(d);
+            v.sort();
+            Ok(ok(show_vec(&v)))
+        }
+        "with_shape" => {
+            let (r, c) = (t.usize()?, t.usize()?);
+            t.end()?;
+            let m = Matrix::with_shape(r, c);
+            Ok(ok(format!("{} {} {}", m.shape()[0], m.shape()[1], m.data.len())))
+        }
         _ => Err(BadOp),
     }
 }
